@@ -187,6 +187,39 @@ def merge_oracle(res):
                                        "cmd": "python3 -c 'from peppercompiler.DNA_classes import Sequence as S; x=S(\"x\",\"\",[(1,%r)]); x.fix_seq(%r); print(x.const)'" % (a, b)})
 
 
+def frontend_pair_oracle(res):
+    """the designer front-end's template merge over ONE link (Constraints.init / add_eq or add_wc / propagate /
+    propagate_templates) for every ordered pair of codes: over an equality both positions end up with code(a ∩ b); over a base
+    pair the first with code(a ∩ comp b) and the second with its complement; an error iff the set is empty"""
+    from peppercompiler.design.constraint_load import Constraints
+    from peppercompiler import DNA_classes as D
+    grp = D.group
+    codes = sorted(grp)
+    for a, b in itertools.product(codes, repeat=2):
+        for kind in ("eq", "wc"):
+            res.evaluations += 1
+            other = set(grp[b]) if kind == "eq" else {COMP[x] for x in grp[b]}
+            want0 = "".join(sorted(set(grp[a]) & other))
+            want1 = want0 if kind == "eq" else "".join(sorted(COMP[x] for x in want0))
+            c = Constraints()
+            c.init(0, a); c.init(1, b)
+            (c.add_eq if kind == "eq" else c.add_wc)(0, 1)
+            try:
+                c.propagate(); c.propagate_templates()
+                got = (c.st[0], c.st[1])
+            except ValueError:
+                got = None
+            except Exception as e:
+                got = "raised %s" % type(e).__name__
+            ok = (got is None and not want0) or (isinstance(got, tuple) and want0 and all(g in grp for g in got) and
+                                                 "".join(sorted(grp[got[0]])) == want0 and "".join(sorted(grp[got[1]])) == want1)
+            if not ok:
+                res.violations.append({"what": "front-end template merge of codes %s and %s over %s gives %r; the first position may carry exactly %s"
+                                               % (a, b, "an equality" if kind == "eq" else "a base pair", got, want0 or "(nothing: must be an error)"),
+                                       "input": {"first": a, "second": b, "link": kind}, "sig": "C11:frontend-merge:%s:%s%s" % (kind, a, b),
+                                       "cmd": "Constraints(): init(0,%r); init(1,%r); add_%s(0,1); propagate(); propagate_templates(); st" % (a, b, kind)})
+
+
 def correspondence(st, res, seed, n):
     """model `intersect` / `wcStr` on the generated table vs the live Python functions"""
     from peppercompiler.design import constraint_load
@@ -230,6 +263,7 @@ def run(st, tier, seed):
     strings_oracle(res, seed, 300 if tier == "quick" else 20000)
     intersect_oracle(res)
     merge_oracle(res)
+    frontend_pair_oracle(res)
     try:
         correspondence(st, res, seed, 200 if tier == "quick" else 5000)
     except Exception as e:
